@@ -238,30 +238,28 @@ theorem parseFunctionParametersLoop_stop {f : Nat} {st : PState} {acc : NList} (
   unfold parseFunctionParametersLoop
   simp [bind_apply, h]
 
-theorem parameter_ok {st : PState} (h : st.cur.type ≠ .ILLEGAL) : parameter s st = .ok (some (.ident st.cur.tk), st) := by
+theorem parameter_ok {st : PState} : parameter s st = .ok (some (.ident st.cur.tk), st) := by
   unfold parameter
-  simp [bind_apply, h]
+  simp [bind_apply]
 
-theorem parseFunctionParametersLoop_step {f : Nat} {st : PState} {acc : NList} (h : st.peek.type = .COMMA)
-    (hi : (advance s (advance s st)).cur.type ≠ .ILLEGAL) :
+theorem parseFunctionParametersLoop_step {f : Nat} {st : PState} {acc : NList} (h : st.peek.type = .COMMA) :
     parseFunctionParametersLoop s (f + 1) acc st =
       parseFunctionParametersLoop s f (acc ++ [some (.ident (advance s (advance s st)).cur.tk)]) (advance s (advance s st)) := by
   conv => lhs; unfold parseFunctionParametersLoop
-  simp [bind_apply, h, parameter_ok hi]
+  simp [bind_apply, h, parameter_ok]
 
 theorem parseFunctionParameters_empty {f : Nat} {st : PState} (h : st.peek.type = .RPAREN) :
     parseFunctionParameters s f st = .ok (([], false), advance s st) := by
   unfold parseFunctionParameters
   simp [bind_apply, h]
 
-theorem parseFunctionParameters_ok {f : Nat} {st st1 : PState} {ids : NList} (h0 : st.peek.type ≠ .RPAREN)
-    (hi : st.peek.type ≠ .ILLEGAL)
+/-- the list passes `okParamList` (identifiers, the last one may be `..`): the parameters and the variadic flag -/
+theorem parseFunctionParameters_ok {f : Nat} {st st1 : PState} {ids : NList} {t : Option Tk} (h0 : st.peek.type ≠ .RPAREN)
     (h : parseFunctionParametersLoop s f [some (.ident st.peek.tk)] (advance s st) = .ok (ids, st1))
-    (hp : st1.peek.type = .RPAREN) :
-    parseFunctionParameters s f st = .ok ((ids, decide (st1.cur.type = .DOTDOT)), advance s st1) := by
+    (hp : st1.peek.type = .RPAREN) (hk : okParamList ids = some (t, true)) :
+    parseFunctionParameters s f st = .ok ((ids, t.isSome), advance s st1) := by
   unfold parseFunctionParameters
-  have hi' : (advance s st).cur.type ≠ .ILLEGAL := hi
-  simp [bind_apply, h0, parameter_ok hi', h, expectPeek_ok hp]
+  simp [bind_apply, h0, parameter_ok, h, expectPeek_ok hp, hk]
 
 theorem parseFunctionLiteral_anon {f : Nat} {st st1 st2 : PState} {params : NList} {variadic : Bool} {body : Stmts}
     (h0 : st.peek.type = .LPAREN) (h1 : parseFunctionParameters s f (advance s st) = .ok ((params, variadic), st1))
